@@ -218,11 +218,22 @@ Definition entry_ok (idl : list N) (fb : N -> bytes) (o : N) (ld : logdata) : Pr
      fb (ld_chunk ld) = pre ++ enc_record (RAppend (ld_id ld) p) ++ post /\
      ld_off ld = ld_chunk ld + blen pre /\ ld_len ld = rec_size (RAppend (ld_id ld) p)).
 
+(* the file that follows a closed chunk starts with the snapshot of the state that
+   was current when that chunk was closed *)
+Fixpoint heads_ok (fb : N -> bytes) (cl : list closed) (o : N) : Prop :=
+  match cl with
+  | [] => True
+  | c :: r =>
+    (exists tl, fb (match r with [] => o | c' :: _ => ck_id (cl_chunk c') end)
+                = enc_record (RState (cl_state c)) ++ tl) /\ heads_ok fb r o
+  end.
+
 Record jinv (k : core) (idl : list N) (fb : N -> bytes) : Prop := mkJinv {
   ji_ids : idl = chunk_ids k;
   ji_sorted : StronglySorted N.lt idl;
   ji_abut : abut fb idl;
   ji_chunks : Forall (chunk_ok fb) (live_chunks k);
+  ji_heads : heads_ok fb (k_closed k) (ck_id (k_open k));
   ji_rs : wf_rstate (m_rs (k_sm k));
   ji_log : Forall (fun e => entry_ok idl fb (ck_id (k_open k)) (snd e)) (m_log (k_sm k)) }.
 
@@ -261,6 +272,13 @@ Proof.
     + apply IH; [|assumption]. intros j Ij. apply He. right; assumption.
 Qed.
 
+(* what [abut] means: any two neighbours in the list abut *)
+Lemma abut_spec fb l : abut fb l ->
+  forall pre a b post, l = pre ++ a :: b :: post -> b = a + blen (fb a).
+Proof.
+  intros H pre a b post E. subst l. apply abut_app_r in H. simpl in H. apply H.
+Qed.
+
 Lemma abut_total fb l : forall a z, abut fb (a :: l) -> last (a :: l) a = z ->
   z + blen (fb z) - a = nsum (map (fun j => blen (fb j)) (a :: l)).
 Proof.
@@ -282,6 +300,36 @@ Proof.
         assert (Hz'' : last (c :: l) c = z) by (rewrite last_cons; assumption).
         specialize (IHl c z H3 Hz''). lia. }
     lia.
+Qed.
+
+(* ---- heads_ok ---- *)
+Lemma heads_ok_ext fb fb' cl o :
+  (forall j, In j (map (fun c => ck_id (cl_chunk c)) cl ++ [o]) -> exists t, fb' j = fb j ++ t) ->
+  heads_ok fb cl o -> heads_ok fb' cl o.
+Proof.
+  induction cl as [|c r IH]; intros He H; [exact I|].
+  cbn [heads_ok] in H |- *. destruct H as [(tl & H1) H2]. split.
+  - destruct (He (match r with [] => o | c' :: _ => ck_id (cl_chunk c') end)) as [t Et].
+    { destruct r; cbn [map app]; right; left; reflexivity. }
+    exists (tl ++ t). rewrite Et, H1, app_assoc. reflexivity.
+  - apply IH; [|assumption]. intros j Ij. apply He. cbn [map app]. right. assumption.
+Qed.
+
+Lemma heads_ok_suffix fb pre rest o : heads_ok fb (pre ++ rest) o -> heads_ok fb rest o.
+Proof.
+  induction pre as [|c pre IH]; intros H; [assumption|]. cbn [app heads_ok] in H. apply IH, H.
+Qed.
+
+Lemma heads_ok_snoc fb cl o cnew off :
+  heads_ok fb cl o -> ck_id (cl_chunk cnew) = o ->
+  (exists tl, fb off = enc_record (RState (cl_state cnew)) ++ tl) ->
+  heads_ok fb (cl ++ [cnew]) off.
+Proof.
+  induction cl as [|c r IH]; intros H Eo Hn.
+  - cbn [app heads_ok]. auto.
+  - cbn [heads_ok] in H. destruct H as [H1 H2]. cbn [app heads_ok]. split.
+    + destruct r as [|c' r']; cbn [app]; [rewrite Eo|]; assumption.
+    + apply IH; assumption.
 Qed.
 
 (* ---- chunk_ok ---- *)
@@ -456,6 +504,10 @@ Proof.
       apply Eother. pose proof (ji_closed_lt _ _ _ J _ Icl). fold o in H. lia.
     + constructor; [|constructor].
       apply chunk_ok_push with (fb := fb); [apply (ji_open_ok _ _ _ J)|assumption|exact Eo].
+  - simpl. apply heads_ok_ext with (fb := fb); [|apply (ji_heads _ _ _ J)].
+    intros j _. destruct (N.eq_dec j o) as [E|E].
+    + subst j. exists (enc_record r). exact Eo.
+    + exists []. rewrite app_nil_r. apply Eother. assumption.
   - simpl. destruct (sm_apply_ok _ _ _ _ _ _ Hv Hs) as [_ E].
     eapply rs_apply_wf; [apply (ji_rs _ _ _ J)|exact Hr|exact E].
   - simpl. rewrite Forall_forall. intros e Ie.
@@ -516,6 +568,13 @@ Proof.
       * subst c. apply in_app_iff. right. left. reflexivity.
     + constructor; [|constructor]. fold off.
       apply chunk_ok_fresh; [apply (ji_rs _ _ _ J)|exact Eh].
+  - unfold rotated. cbn [k_closed k_open]. rewrite Hci, ck_id_push. cbn [ck_id]. fold off.
+    apply heads_ok_snoc with (o := o).
+    + apply heads_ok_ext with (fb := fb); [|apply (ji_heads _ _ _ J)].
+      intros j Ij. exists []. rewrite app_nil_r. apply Hin.
+      rewrite (ji_ids _ _ _ J). unfold chunk_ids. apply in_app_iff. right. exact Ij.
+    + reflexivity.
+    + exists []. rewrite app_nil_r. exact Eh.
   - apply (ji_rs _ _ _ J).
   - simpl. fold off. pose proof (ji_log _ _ _ J) as HL. rewrite Forall_forall in *.
     intros e Ie. specialize (HL e Ie). fold o in HL. destruct HL as (W & Hle & Hseg).
@@ -553,6 +612,7 @@ Proof.
   - apply (ji_abut _ _ _ J).
   - pose proof (ji_chunks _ _ _ J) as HC. unfold live_chunks, purged_core in *. simpl.
     rewrite E1, map_app, <- app_assoc in HC. apply Forall_app in HC. apply HC.
+  - pose proof (ji_heads _ _ _ J) as HH. rewrite E1 in HH. apply heads_ok_suffix in HH. exact HH.
   - apply (ji_rs _ _ _ J).
   - apply (ji_log _ _ _ J).
 Qed.
@@ -580,6 +640,8 @@ Proof.
     + left. apply in_map_iff in Ic as (cl & E & Icl). subst c.
       apply (in_map (fun c => ck_id (cl_chunk c))). assumption.
     + right. left. subst c. reflexivity.
+  - simpl. apply heads_ok_ext with (fb := fb); [|apply (ji_heads _ _ _ J)].
+    intros j Ij. exists []. rewrite app_nil_r. apply He. exact Ij.
   - apply (ji_rs _ _ _ J).
   - simpl. pose proof (ji_log _ _ _ J) as HL. rewrite Forall_forall in *.
     intros e Ie. specialize (HL e Ie). destruct HL as (W & Hle & Hseg).
@@ -599,6 +661,7 @@ Proof.
   - apply (ji_sorted _ _ _ J).
   - apply (ji_abut _ _ _ J).
   - unfold live_chunks. rewrite E2, E4. apply (ji_chunks _ _ _ J).
+  - rewrite E2, E4. apply (ji_heads _ _ _ J).
   - rewrite E6. apply (ji_rs _ _ _ J).
   - rewrite E7, E2. apply (ji_log _ _ _ J).
 Qed.
@@ -611,6 +674,8 @@ Proof.
   - apply abut_ext with (fb := fb); [intros; apply He|apply (ji_abut _ _ _ J)].
   - pose proof (ji_chunks _ _ _ J) as HC. rewrite Forall_forall in *. intros c Ic.
     apply chunk_ok_ext with (fb := fb); [apply He|apply HC, Ic].
+  - apply heads_ok_ext with (fb := fb); [|apply (ji_heads _ _ _ J)].
+    intros j _. exists []. rewrite app_nil_r. apply He.
   - apply (ji_rs _ _ _ J).
   - pose proof (ji_log _ _ _ J) as HL. rewrite Forall_forall in *.
     intros e Ie. specialize (HL e Ie). destruct HL as (W & Hle & Hseg).
